@@ -16,6 +16,7 @@ import Vicut.Model.ExRef
 import Vicut.Model.Verbs
 import Vicut.Model.Pos
 import Vicut.Model.Repeat
+import Vicut.Model.Vic
 
 open Lean Vicut
 
@@ -425,6 +426,78 @@ def opDot (req : Json) : Json :=
       | _ => none
   Json.mkObj [("execs", Json.arr ((dotExecs rep (jnat req "count")).map rcmdJson).toArray)]
 
+namespace VicJ
+open Vicut.Vic
+
+def sOf (j : Json) : String := j.getStr?.toOption.getD ""
+def iOf (j : Json) : Int := j.getInt?.toOption.getD 0
+def at_ (a : Array Json) (i : Nat) : Json := a[i]?.getD Json.null
+def arrOf (j : Json) : Array Json := match j with | .arr a => a | _ => #[]
+
+def binOpOf : String → BinOp
+  | "+" => .add | "-" => .sub | "*" => .mul | "/" => .div | _ => .mod
+def cmpOpOf : String → CmpOp
+  | "==" => .eq | "!=" => .ne | "<" => .lt | "<=" => .le | ">" => .gt | _ => .ge
+
+partial def aexpr (j : Json) : AExpr :=
+  let a := arrOf j
+  match sOf (at_ a 0) with
+  | "int" => .int (iOf (at_ a 1))
+  | "var" => .var (sOf (at_ a 1))
+  | _ => .bin (binOpOf (sOf (at_ a 1))) (aexpr (at_ a 2)) (aexpr (at_ a 3))
+
+partial def bexpr (j : Json) : BExpr :=
+  let a := arrOf j
+  match sOf (at_ a 0) with
+  | "cmp" => .cmp (cmpOpOf (sOf (at_ a 1))) (aexpr (at_ a 2)) (aexpr (at_ a 3))
+  | "and" => .and (bexpr (at_ a 1)) (bexpr (at_ a 2))
+  | "or" => .or (bexpr (at_ a 1)) (bexpr (at_ a 2))
+  | _ => .lit ((at_ a 1).getBool?.toOption.getD false)
+
+partial def expr (j : Json) : Expr :=
+  let a := arrOf j
+  match sOf (at_ a 0) with
+  | "arith" => .arith (aexpr (at_ a 1))
+  | "lit" => .lit ((arrOf (at_ a 1)).toList.map fun p =>
+      let pa := arrOf p
+      if sOf (at_ pa 0) == "t" then LitPart.text (sOf (at_ pa 1)) else LitPart.interp (sOf (at_ pa 1)))
+  | "arr" => .arr ((arrOf (at_ a 1)).toList.map aexpr)
+  | "var" => .var (sOf (at_ a 1))
+  | "index" => .index (sOf (at_ a 1)) (aexpr (at_ a 2))
+  | "call" => .call (sOf (at_ a 1)) ((arrOf (at_ a 2)).toList.map expr)
+  | "pop" => .pop (sOf (at_ a 1))
+  | "bool" => .boolE (bexpr (at_ a 1))
+  | _ => .range (aexpr (at_ a 1)) (aexpr (at_ a 2)) ((at_ a 3).getBool?.toOption.getD false)
+
+partial def stmt (j : Json) : Stmt :=
+  let a := arrOf j
+  let block (b : Json) : List Stmt := (arrOf b).toList.map stmt
+  match sOf (at_ a 0) with
+  | "let" => .let_ (sOf (at_ a 1)) (expr (at_ a 2))
+  | "assign" => .assign (sOf (at_ a 1)) (expr (at_ a 2))
+  | "op" => .opAssign (sOf (at_ a 1)) (binOpOf (sOf (at_ a 2))) (aexpr (at_ a 3))
+  | "setidx" => .setIndex (sOf (at_ a 1)) (aexpr (at_ a 2)) (expr (at_ a 3))
+  | "echo" => .echo ((arrOf (at_ a 1)).toList.map expr)
+  | "if" => .ifs ((arrOf (at_ a 1)).toList.map fun cb => (bexpr (at_ (arrOf cb) 0), block (at_ (arrOf cb) 1)))
+              (match at_ a 2 with | .null => none | b => some (block b))
+  | "while" => .while_ ((at_ a 1).getBool?.toOption.getD false) (bexpr (at_ a 2)) (block (at_ a 3))
+  | "for" => .for_ (sOf (at_ a 1)) (expr (at_ a 2)) (block (at_ a 3))
+  | "push" => .push (sOf (at_ a 1)) (expr (at_ a 2))
+  | "pop" => .popS (sOf (at_ a 1))
+  | "def" => .def_ (sOf (at_ a 1)) ((arrOf (at_ a 2)).toList.map sOf) (block (at_ a 3))
+  | "call" => .callS (sOf (at_ a 1)) ((arrOf (at_ a 2)).toList.map expr)
+  | _ => .ret (expr (at_ a 1))
+
+end VicJ
+
+/-- `{"op":"vic","prog":[stmts],"fuel":n}`: the lines the reference interpreter prints. -/
+def opVic (req : Json) : Json :=
+  let prog := (jarr req "prog").toList.map VicJ.stmt
+  let fuel := if jnat req "fuel" == 0 then 100000 else jnat req "fuel"
+  match Vicut.Vic.runProgram fuel prog with
+  | .ok lines => Json.mkObj [("out", Json.arr (lines.map Json.str).toArray)]
+  | .error e => Json.mkObj [("err", Json.str e)]
+
 def dispatch (req : Json) : Json :=
   match jstr req "op" with
   | "ping" => Json.mkObj [("pong", true)]
@@ -442,6 +515,7 @@ def dispatch (req : Json) : Json :=
   | "verb" => opVerb req
   | "pos" => opPos req
   | "dot" => opDot req
+  | "vic" => opVic req
   | op => Json.mkObj [("err", Json.str s!"unknown op {op}")]
 
 partial def loop (h : IO.FS.Stream) (out : IO.FS.Stream) : IO Unit := do
